@@ -126,7 +126,9 @@ CHECKS["C03"] = dict(
               "segment-versus-convex-interior predicate, with a clearance-based path-existence oracle as the guard",
     level_text="Generated scenes of interior-disjoint lattice rectangles and convex polygons (30% 'tight': butted and edge-aligned), "
                "1-6 connectors with free endpoints, both routing modes, buffer 0/1/2.5, random penalties, nudging distance and all "
-               "boolean routing options.  After processTransaction() both displayRoute() and route() of every connector must have "
+               "boolean routing options.  A second family (C03.side) puts one end of a single orthogonal connector exactly on a side of a shape's routing box "
+               "(bounding box grown by the buffer distance 0/0.5/1/2, strictly between the corners; existence of a path is certified from the point "
+               "one unit further out).  After processTransaction() both displayRoute() and route() of every connector must have "
                ">=2 points, start/end exactly at the attachments and have no segment through the open interior of a shape that "
                "does not contain an endpoint - required whenever the harness's own search finds a path with positive clearance.",
     level_note="Connectors for which only a zero-clearance corridor exists are not judged (libavoid deliberately blocks sight lines "
